@@ -8,3 +8,7 @@ extern volatile uint64_t verif_counts[VERIF_KINDS];
 extern struct verif_str verif_strs[VERIF_MAXSTR];
 extern volatile uint32_t verif_nstr;
 void verif_reset(void);
+#include <stddef.h>
+size_t verif_cnt_len(void);
+void verif_cnt_zero(void);
+void verif_cnt_copy(uint8_t *dst);
